@@ -177,9 +177,42 @@ func c12Setup(rng *core.Rng, k int) (priv crypto.Key, nonce *crypto.CosiNonce, c
 	nonce = crypto.CosiCommitNonce(crypto.RandReader())
 	crypto.SimRand = prev
 	R := nonce.Public()
+	mes := []int{}
 	for i := 0; i < k; i++ {
+		if i > 0 && rng.Chance(0.5) {
+			// a challenge that differs from the first one in a single ingredient: one other signer's
+			// key (same aggregated commitment, mask and message), or only the message
+			base := chs[0]
+			publics := append([]*crypto.Key{}, base.publics...)
+			msg := base.message
+			var others []int
+			for _, j := range base.sig.Keys() {
+				if j != mes[0] {
+					others = append(others, j)
+				}
+			}
+			if len(others) > 0 && rng.Chance(0.7) {
+				s := make([]byte, 64)
+				rng.Bytes(s)
+				kk := crypto.NewKeyFromSeed(s).Public()
+				publics[others[rng.IntN(len(others))]] = &kk
+			} else {
+				rng.Bytes(msg[:])
+			}
+			sigCopy := *base.sig
+			ch := &c12Challenge{sig: &sigCopy, publics: publics, message: msg}
+			sc, err := ch.sig.Challenge(publics, msg)
+			if err != nil {
+				panic(err)
+			}
+			copy(ch.scalar[:], sc.Bytes())
+			chs = append(chs, ch)
+			mes = append(mes, mes[0])
+			continue
+		}
 		n := 3 + rng.IntN(5)
 		me := rng.IntN(n)
+		mes = append(mes, me)
 		publics := make([]*crypto.Key, n)
 		commitments := map[int]*crypto.Key{}
 		for j := 0; j < n; j++ {
